@@ -229,11 +229,15 @@ PURITY_EXPRS = [
     "all(x != r.s for x in ['a', r.t])",
     "r.b and r.n > 1 or r.s == 'ab'",
     "not r.b",
+    "Type.varint == 3",
+    "'a' in Type.string",
+    "any([r.n == 1, r.m == 1])",
+    "all((r.b, r.n > 0))",
     "r.n + r.m == 5",
     "name(r) == 'test/rec' and r.n != 0",
     "has_field(r, 's') and r.missing == 1",
     "field_equals(r, ['s', 't'], ['a'], nocase=False)",
-    "Type.varint == 3",
+    "Type.string == r.s",
     "1 < r.n < r.m",
 ]
 
@@ -280,7 +284,7 @@ def obligations(tier, seed):
     for reader in ("stream", "sqlite"):
         obs.append(ob(f"O1-noselector/{reader}", "xh", "noselector", {"reader": reader}, timeout=20, bounds="k <= 6 records"))
     obs.append(ob("O1-make_selector", "xh", "mksel", {}, timeout=20, bounds="kinds of selector argument x force_compiled"))
-    exprs = PURITY_EXPRS if tier == "thorough" else PURITY_EXPRS[:9]
+    exprs = PURITY_EXPRS if tier == "thorough" else PURITY_EXPRS[:13]
     for i, e in enumerate(exprs):
         for eng in "ic":
             obs.append(ob(f"O2-purity/{eng}/{i}", "xh", "purity", {"expr": e, "engine": eng}, timeout=25 if tier == "quick" else 90, group="O2-purity", bounds="two records, ints unbounded, strings <= 2 chars"))
